@@ -97,7 +97,7 @@ mod list_impl {
     pub(super) fn build(
         cap: usize,
         qlen: usize,
-        q: &dyn Fn(usize) -> QEntry,
+        q: &[QEntry],
         stored: &Waker,
         armed: bool,
     ) -> WakerList {
@@ -109,7 +109,7 @@ mod list_impl {
         // concrete loop bound (cap); qlen <= cap is part of the invariant
         for k in 0..cap {
             if k < qlen {
-                let e = q(k);
+                let e = q[k];
                 if e.inflight {
                     list.st().wake_begin(e.slot);
                 } else {
@@ -171,7 +171,7 @@ mod list_impl {
     pub(super) fn build(
         cap: usize,
         qlen: usize,
-        q: &dyn Fn(usize) -> QEntry,
+        q: &[QEntry],
         stored: &Waker,
         armed: bool,
     ) -> WakerList {
@@ -187,7 +187,7 @@ mod list_impl {
         }
         for k in 0..cap {
             if k < qlen {
-                let e = q(k);
+                let e = q[k];
                 assert!(!e.inflight, "in-flight enqueue cannot be built on the real list");
                 unsafe { list.push(e.slot) };
             }
@@ -243,7 +243,7 @@ pub fn fub_from_parts<F>(
     slot: impl FnMut(usize) -> Result<F, usize>,
     free_head: usize,
     qlen: usize,
-    q: &dyn Fn(usize) -> QEntry,
+    q: &[QEntry],
     stored: &Waker,
     armed: bool,
 ) -> FuturesUnorderedBounded<F> {
@@ -350,6 +350,10 @@ pub mod model_waker {
     pub fn reset() {
         m::model_reset()
     }
+    /// enable the modelling of enqueues in flight (two-phase wakes)
+    pub fn set_two_phase(on: bool) {
+        m::set_two_phase(on)
+    }
 }
 
 // ------------------------------------------------------- ordered collections
@@ -365,7 +369,7 @@ pub fn fob_from_parts<F: Future>(
     mut slot: impl FnMut(usize) -> Result<(F, usize), usize>,
     free_head: usize,
     qlen: usize,
-    q: &dyn Fn(usize) -> QEntry,
+    q: &[QEntry],
     stored: &Waker,
     armed: bool,
     heap_cap: usize,
